@@ -528,9 +528,21 @@ theorem C02_acl_default_in_space (o : AclObs) : contains o.space o.default = tru
   rw [rangeFrom_eq] at hi
   exact C02_acl_empty_rule_in_space o i (by have := (List.mem_range'_1.mp hi).2; omega)
 
-/-- configuration the encoder handles: no entry listed twice (a repeated entry makes `len(dict) + 2` too small — see the
-counterexample below) -/
+/-- invariant of construction: the id tables come from lists without repeated entry (`__init__` de-duplicates them; a repeated
+entry would make `len(dict) + 2` too small — finding F-C02-1, fixed) -/
 def AclObs.CfgOk (o : AclObs) : Prop := o.ips.Nodup ∧ o.wcs.Nodup ∧ o.ports.Nodup ∧ o.protos.Nodup
+
+theorem dedupFirst_nodup {α} [DecidableEq α] (l : List α) : (dedupFirst l).Nodup := by
+  induction l with
+  | nil => simp [dedupFirst]
+  | cons y ys ih =>
+    simp only [dedupFirst, List.nodup_cons]
+    exact ⟨by simp [List.mem_filter], List.Pairwise.filter _ ih⟩
+
+/-- every ACL observation object built by the constructor satisfies the invariant, whatever lists are configured -/
+theorem C02_acl_fromConfig_cfgOk (wh numRules) (ips wcs : List String) (ports : List Nat) (protos : List String) :
+    (AclObs.fromConfig wh numRules ips wcs ports protos).CfgOk :=
+  ⟨dedupFirst_nodup _, dedupFirst_nodup _, dedupFirst_nodup _, dedupFirst_nodup _⟩
 
 /-- state the encoder handles without raising: the ACL has at least `num_rules` slots -/
 def AclObs.SlotsOk (o : AclObs) (slots : List (Option RuleState)) : Prop := o.numRules ≤ slots.length
@@ -549,7 +561,8 @@ theorem AclObs.find_wf {capture o st slots} (w : WfState capture st) (hf : AclOb
     exact (w.node hn).2.2.2.2.2.2 (a, slots) (lookupS_mem hl)
 
 /-- ACL observation, **partial**: holds for every state in which the observation does not ask for more slots than the ACL has
-and the configured lists have no repeated entry (an address outside `ip_list` encodes as 1 since the F-7 fix). -/
+(F-6, open). `CfgOk` holds of every constructed object (`C02_acl_fromConfig_cfgOk`); an address outside `ip_list` encodes as 1
+since the F-7 fix. -/
 theorem C02_acl_in_space_partial (capture : Bool) (o : AclObs) (st : SimState) (w : WfState capture st) (c : o.Compat st) :
     contains o.space (o.val st) = true := by
   unfold AclObs.val
@@ -576,7 +589,7 @@ theorem C02_acl_in_space_partial (capture : Bool) (o : AclObs) (st : SimState) (
         (getId_in_space _ hwcs _) (getId_in_space _ hports _) (getId_in_space _ hips _) (getId_in_space _ hwcs _)
         (getId_in_space _ hports _) (getId_in_space _ hprotos _)
 
-/-- The unrestricted ACL statement. It is FALSE of the code (finding F-6 and the repeated-entry case). -/
+/-- The unrestricted ACL statement. It is FALSE of the code (finding F-6). -/
 def C02_FullAcl : Prop :=
   ∀ (o : AclObs) (st : SimState), WfState false st → contains o.space (o.val st) = true
 
@@ -604,8 +617,7 @@ def f7Obs : AclObs := { wh := some ("r", "acl"), numRules := 1, ips := ["10.0.0.
 def f7State : SimState := witnessState [some (witnessRule (some "10.0.0.9"))]
 def f6Obs : AclObs := { wh := some ("r", "acl"), numRules := 2, ips := [], wcs := [], ports := [], protos := [] }
 def f6State : SimState := witnessState [none]
-def dupObs : AclObs :=
-  { wh := some ("r", "acl"), numRules := 1, ips := ["10.0.0.1", "10.0.0.1"], wcs := [], ports := [], protos := [] }
+def dupObs : AclObs := AclObs.fromConfig (some ("r", "acl")) 1 ["10.0.0.1", "10.0.0.1"] [] [] []
 def dupState : SimState := witnessState [some (witnessRule (some "10.0.0.1"))]
 
 theorem witnessRule_wf (slots : List (Option RuleState)) (h : ∀ r ∈ slots, r = none ∨ ∃ a, r = some (witnessRule a)) :
@@ -626,11 +638,19 @@ theorem C02_acl_too_many_rules_counterexample :
     WfState false f6State ∧ (f6Obs.val f6State).raises = true ∧ contains f6Obs.space (f6Obs.val f6State) = false :=
   ⟨witnessRule_wf _ (by intro r hr; simp only [List.mem_singleton] at hr; exact Or.inl hr), by decide, by decide⟩
 
-/-- A repeated entry in `ip_list` (also wildcard/port/protocol lists): the id is the LAST index + 2 but the space is sized by
-the number of DISTINCT entries + 2, so a listed address encodes outside the space without any error. -/
-theorem C02_acl_repeated_entry_counterexample :
-    WfState false dupState ∧ (dupObs.val dupState).raises = false ∧ contains dupObs.space (dupObs.val dupState) = false :=
+/-- F-C02-1 (fixed): with a repeated entry in `ip_list` the constructed object de-duplicates, and a listed address stays in
+the space. (Without de-duplication the id was the LAST index + 2 while the space was sized by the number of DISTINCT entries + 2.) -/
+theorem C02_acl_repeated_entry_fixed :
+    WfState false dupState ∧ (dupObs.val dupState).raises = false ∧ contains dupObs.space (dupObs.val dupState) = true :=
   ⟨witnessRule_wf _ (by intro r hr; simp only [List.mem_singleton] at hr; exact Or.inr ⟨_, hr⟩), by decide, by decide⟩
+
+/-- for every configured list (repeats included) and every state, an ACL observation built by the constructor is in its space as
+soon as the ACL has `num_rules` slots -/
+theorem C02_acl_fromConfig_in_space (capture : Bool) (wh numRules) (ips wcs : List String) (ports : List Nat) (protos : List String)
+    (st : SimState) (w : WfState capture st)
+    (hs : ∀ slots, (AclObs.fromConfig wh numRules ips wcs ports protos).find st = some slots → numRules ≤ slots.length) :
+    contains (AclObs.fromConfig wh numRules ips wcs ports protos).space ((AclObs.fromConfig wh numRules ips wcs ports protos).val st) = true :=
+  C02_acl_in_space_partial capture _ st w ⟨C02_acl_fromConfig_cfgOk _ _ _ _ _ _, hs⟩
 
 theorem C02_acl_counterexample : ¬ C02_FullAcl := by
   intro h
@@ -726,7 +746,10 @@ theorem C02_host_in_space (capture : Bool) (o : HostObs) (st : SimState) (w : Wf
 /-! ### router, firewall -/
 
 def RouterObs.Compat (o : RouterObs) (st : SimState) : Prop := o.acl.Compat st
-def FirewallObs.Compat (o : FirewallObs) (st : SimState) : Prop := ∀ a, (o.acl a).Compat st
+def FirewallObs.Compat (o : FirewallObs) (st : SimState) : Prop :=
+  ∀ a slots, (o.acl a).find st = some slots → (o.acl a).SlotsOk slots
+
+theorem FirewallObs.acl_cfgOk (o : FirewallObs) (a : String) : (o.acl a).CfgOk := C02_acl_fromConfig_cfgOk _ _ _ _ _ _
 
 theorem routerKeys_nodup (b1 b2 : Bool) {α} (v0 v1 v2 : α) :
     (keysOf ((Key.s "ACL", v0) :: (optEntry b1 (.s "PORTS") v1 ++ optEntry b2 (.s "users") v2))).Nodup := by
@@ -790,7 +813,7 @@ theorem C02_firewall_in_space_partial (capture : Bool) (o : FirewallObs) (st : S
         | none => have := wn.2.2.2.2.2.1; simp [hu] at this
         | some u => exact C02_users_in_space u
       unfold FirewallObs.space
-      refine contains_dict_of_par (Par.cons ?_ (Par.cons (firewallAcl_in_space _ _ (fun a => C02_acl_in_space_partial capture _ st w (c a)))
+      refine contains_dict_of_par (Par.cons ?_ (Par.cons (firewallAcl_in_space _ _ (fun a => C02_acl_in_space_partial capture _ st w ⟨o.acl_cfgOk a, c a⟩))
         (Par.opt _ _ fun _ => hu))) (firewallKeys_nodup _ _ _ _)
       have hp := fun i => C02_port_in_space (o.port i) st
       exact contains_dict_of_par (Par.cons (hp 1) (Par.cons (hp 2) (Par.single (hp 3)))) (by simp [keysOf, Obs.enumFrom])
@@ -868,7 +891,7 @@ def Obs.OkL : List (String × Obs) → Prop
 end
 
 mutual
-/-- the ACL-carrying parts do not raise on this state (excludes exactly F-6 and repeated list entries) -/
+/-- the ACL-carrying parts do not raise on this state (excludes exactly F-6; the no-repeat part holds by construction) -/
 def Obs.Compat (st : SimState) : Obs → Prop
   | .acl o => o.Compat st
   | .router o => o.Compat st
